@@ -480,4 +480,7 @@ def run(ck, tier):
     ck.assume('value-level round trips (signs, NaN, subnormals) rest on struct, which is trusted')
     from .. import ownership as _own
     ck.guard(_own.rule_instance_owned, ck, cx, 'R5', _own.PAYLOAD, 'values added to one builder appear in the payload of another', 1)
+    from .. import ownership as _own2
+    ck.rule('R6', 'no unsound memoisation (a caching decorator on a method, or on a function that returns a mutable container) in the modules this property rests on')
+    ck.guard(_own2.rule_no_unsafe_memo, ck, cx, 'R6', ('pymodbus.payload',), 'the image built or decoded is the one cached for other values')
     return cx.idx
